@@ -1,12 +1,8 @@
 #!/bin/sh
-# setup: build everything that does not depend on /repo (Coq development, extraction),
-# then warm the sanitizer build cache of /repo's current tree. Offline, files on disk only.
+# setup: build what the claimed checks need and that does not depend on /repo (Coq development,
+# extraction, OCaml drivers), then warm the sanitizer build cache of /repo's current tree.
+# Offline, files on disk only.
 set -e
 cd "$(dirname "$0")"
-cd coq
-python3 ../lib/mkcoqproject.py >/dev/null; coq_makefile -f _CoqProject -o Makefile >/dev/null
-timeout 3000 make -j16 >/dev/null 2>../out_setup_coq.log || { mkdir -p ../out; mv ../out_setup_coq.log ../out/setup_coq.log; echo "coq build failed, see out/setup_coq.log"; tail -20 ../out/setup_coq.log; exit 1; }
-rm -f ../out_setup_coq.log
-cd ..
 python3 lib/warm.py
 echo setup-ok
